@@ -163,3 +163,7 @@ func vt_C06_pairing_more() {
 	dims := [][3]int{{3, 19, 9}, {2, 14, 14}, {1, 20, 19}, {2, 1, 200}, {2, 200, 1}}[vfCase("lattice", 5)]
 	vfPairing(dims[0], dims[1], dims[2])
 }
+
+// value/coordinate pairing of the octree renderer goes through the distance
+// cache: its transparency harness (C07) is registered under C06 as well.
+func vc_C06_octree_cache_pairing() { vc_C07_cache3() }
